@@ -38,6 +38,7 @@ MonNext ==
     /\ Viol("RoundTrip", RoundTrip')
     /\ Viol("NeighbourUrlsPositional", NeighbourUrlsPositional')
     /\ Viol("PrefetchSizeRoundTrips", PrefetchSizeRoundTrips' /\ MonPrefetchConsumed)
+    /\ Viol("UrlsOwnOrNone", UrlsOwnOrNone')
     /\ Viol("MalformedMandatoryRejected", MalformedMandatoryRejected')
 
 MonSpec == MonInit /\ [][MonNext]_mvars
